@@ -147,7 +147,16 @@ func bases() []base {
 		{"sparse", &sbom.Node{Id: "n", Name: "sparse", Type: sbom.Node_FILE, Licenses: []string{"MIT"}, Hashes: map[int32]string{1: "aa"}}},
 		{"full", full},
 		{"full-dup", dup},
+		{"full-subsecond-dates", subsec()},
 	}
+}
+
+// subsec: fully populated node whose three dates carry 700 ms.
+func subsec() *sbom.Node {
+	n := &sbom.Node{}
+	gen.Full(n, "A", 2)
+	n.ReleaseDate.Nanos, n.BuildDate.Nanos, n.ValidUntilDate.Nanos = 700_000_000, 700_000_000, 700_000_000
+	return n
 }
 
 func Run(c *engine.Ctx) {
